@@ -215,6 +215,8 @@ def classify(e, scope, depth=0, seen=None):
         if name == "None":
             return Cls("safe", "None")
         r = scope.resolve(name, e)
+        if r is None and sir.const_text(e) is not None:
+            return Cls("safe", "text constant %s = %r" % (name, sir.const_text(e)[:20]))
         if r is None:
             return Cls("unsafe", "unbound name `%s`" % name)
         key = (name, id(r[3]))
@@ -533,10 +535,18 @@ def holes_rule(ctx):
                 first_q.setdefault(id(p[1]), qs[hi])
                 hi += 1
         fname = "%s%s" % ((s.fn.get("_impl") + "::") if s.fn.get("_impl") else "", s.fn["name"])
+        # holes that name a text constant are compiled into the literal text: they have no run-time argument (and no MIR type)
+        const_holes = [sir.const_text(h[1]) is not None for h in dh]
+        if len(types) != len(dh) and len(types) == len(dh) - sum(const_holes):
+            it_ = iter(types)
+            types = [(None, None) if c_ else next(it_) for c_ in const_holes]
         for i, h in enumerate(dh):
             n_holes += 1
             arg = sir.expr_str(h[1])
-            ty = emit.norm_type(types[i][1]) if i < len(types) and len(types) == len(dh) else None
+            if const_holes[i]:
+                obs.append(ob("C02.holes/%s/%s/%s" % (fname, re.sub(r"\s+", "", s.fmt)[:40], re.sub(r"\s+", "", arg)[:40]), True, s.where, "hole `%s` names the text constant %r" % (arg, sir.const_text(h[1])[:30])))
+                continue
+            ty = emit.norm_type(types[i][1]) if i < len(types) and len(types) == len(dh) and types[i][1] is not None else None
             how = types[i][0] if i < len(types) and len(types) == len(dh) else None
             key = "C02.holes/%s/%s/%s" % (fname, re.sub(r"\s+", "", s.fmt)[:40], re.sub(r"\s+", "", arg)[:40])
             if ty is None:
